@@ -237,7 +237,29 @@ class History:
         c.op("rekey_in", r)
         self._fault(c.op("t_write", w, pay="gen:7:after", buf=BIG), w, "t_write", "exhausted")
 
-    def transport_phase(self, rnd, nmsgs=4, fault_rate=0.5, rekeys=False, manual=False, stray_setrx=False):
+    def far_nonce_episode(self, rnd):
+        """no twin: messages of one direction under one key at nonces a multiple of 2^32 (2^33, 2^48, 2^63) apart - distinct
+        nonces at the Cipher trait, so only the keystream they produce can show a back end that folds them together"""
+        c = self.c
+        if self.twin:
+            return
+        w, r = ("A", "B") if (self.parsed.oneway or rnd.random() < 0.5) else ("B", "A")
+        b0 = rnd.choice([1000, 1001, 4096, 2**31 + 5])  # beyond every nonce the transport phase used: reuse by the caller is not the library's
+        nonces = [b0] + [b0 + d for d in rnd.sample([2**32, 2**33, 3 * 2**32, 2**48, 2**63], 2)]
+        for i, n in enumerate(nonces):
+            pay = "gen:%d:far%d.%d" % (rnd.choice([16, 32, 100]), self.seed, i)
+            if self.mode(w) == "sl":
+                c.op("st_write", w, n=n, pay=pay, buf=BIG, out="far%d" % i)
+            else:
+                c.op("set_tx_nonce", w, n=n)
+                c.op("t_write", w, pay=pay, buf=BIG, out="far%d" % i)
+            if self.mode(r) == "sl":
+                c.op("st_read", r, n=n, msg="$far%d" % i, buf=BIG)
+            else:
+                c.op("set_rx_nonce", r, n=n)
+                c.op("t_read", r, msg="$far%d" % i, buf=BIG)
+
+    def transport_phase(self, rnd, nmsgs=4, fault_rate=0.5, rekeys=False, manual=False, stray_setrx=False, exhaust=False):
         c = self.c
         p = self.parsed
         cnt = [0, 0]
@@ -271,9 +293,26 @@ class History:
                     self._fault(c.op(wop, w, pay=pay, buf=ln + 15, **nn), w, wop, "buf")
                 else:
                     self._fault(c.op(wop, w, pay="gen:65520:big", buf=BIG, **nn), w, wop, "big")
+            if exhaust and rnd.random() < 0.15:
+                # the counter is parked on the reserved value, the call is refused (Exhausted), the counter is put back:
+                # as if that call had never been made
+                if self.mode(w) == "sl":
+                    self._fault(c.op(wop, w, pay=pay, buf=BIG, n=2**64 - 1), w, wop, "exhausted")
+                else:
+                    c.op("set_tx_nonce", w, n=2**64 - 1)
+                    self._fault(c.op(wop, w, pay=pay, buf=BIG), w, wop, "exhausted")
+                    c.op("set_tx_nonce", w, n=cnt[d])
             lw = c.op(wop, w, pay=pay, buf=BIG, out="t%d" % j, **nn)
             if self.twin:
                 self.pairs.append((lw, c.op(wop, w + "2", pay=pay, buf=BIG, out="u%d" % j, **nn), wop))
+            if exhaust and rnd.random() < 0.15:
+                if self.mode(r) == "sl":
+                    self._fault(c.op(rop, r, msg="$t%d" % j, buf=BIG, n=2**64 - 1), r, rop, "exhausted")
+                else:
+                    c.op("set_rx_nonce", r, n=2**64 - 1)
+                    for _ in range(rnd.choice([1, 2])):
+                        self._fault(c.op(rop, r, msg="$t%d" % j, buf=BIG), r, rop, "exhausted")
+                    c.op("set_rx_nonce", r, n=cnt[d])
             if rnd.random() < fault_rate:
                 kind, arg = rnd.choice(T_READ_FAULTS)
                 reg = "$t%d" % j
